@@ -631,7 +631,7 @@ C03_LOOP_MOD = ["self.training_samples", "self.proposal",
                 "self.reached_tolerance", "self.iid_samples"]
 contract(
     INS, "ImportanceNestedSampler.nested_sampling_loop", variant_name="c03",
-    props=["C03"], self_shape="INSC03", log_domain=True,
+    props=["C03", "C05"], self_shape="INSC03", log_domain=True,
     requires=FRESH + ["self.nlive >= 1",
               "self.plotting_frequency >= 1",
               # (variable draws with an empty level: listed C20 finding)
@@ -645,7 +645,10 @@ contract(
         # every training sample carries the exact meta-proposal density
         "implies(not old(self.finalised), self.finalised)"]
     + ["implies(not old(self.finalised), " + e + ")"
-       for e in rows_ok("training_samples", f"{LV} + 2")],
+       for e in rows_ok("training_samples", f"{LV} + 2")]
+    # C05: the number of returned samples is the sum of the draws of every
+    # level (the per-level counts account for every stored sample)
+    + [f"implies(not old(self.finalised), {CSUM} == real(len({TSs})))"],
 )
 
 # ---- base case: the initial live points (level -1, one column of zeros) -------
